@@ -8,6 +8,7 @@ core::Plan generate(const std::string &prop, uint64_t seed, bool thorough) {
   if (prop == "C17") return gen_pending(seed, thorough);
   if (prop == "C20") return gen_tree(seed, thorough);
   if (prop == "C08") return gen_auth(seed, thorough);
+  if (prop == "C14L") return gen_oomlib(seed, thorough);
   core::harness_error("simlib has no generator for %s", prop.c_str());
 }
 
@@ -16,6 +17,7 @@ core::RunResult execute(const core::Plan &plan, bool log) {
   if (plan.prop == "C17") return run_pending(plan, log);
   if (plan.prop == "C20") return run_tree(plan, log);
   if (plan.prop == "C08") return run_auth(plan, log);
+  if (plan.prop == "C14L") return run_oomlib(plan, log);
   core::harness_error("simlib cannot execute plans of %s", plan.prop.c_str());
 }
 
